@@ -105,7 +105,7 @@ class Evaluator:
         if isinstance(st, ast.Return):
             return ("ret", self.ev(st.value, env) if st.value is not None else None)
         if isinstance(st, ast.Assign):
-            v = self.ev(st.value, env)
+            v = self._try(st.value, env) if getattr(self, "lenient", False) else self.ev(st.value, env)
             for t in st.targets:
                 self._bind(t, v, env)
             return None
@@ -160,7 +160,11 @@ class Evaluator:
     def _try(self, e, env):
         try:
             return self.ev(e, env)
-        except (Unsupported, Fork):
+        except Fork:
+            if getattr(self, "lenient", False):
+                raise
+            return Sym(norm(e))
+        except Unsupported:
             return Sym(norm(e))
 
     def _bind(self, target, v, env):
